@@ -121,7 +121,7 @@ def run_config(cfg, res, relay_oracle=None, extra_weights=None):
 
   def finish(s, v, events):
     for k, n in s.counters.items():
-      if k in ('accepted', 'refused', 'reinjected', 'stop_raised', 'pauses_from_inside_write', 'closes_by_carbon_observed', 'stats_ticks', 'quality_resets_observed', 'stop_completions_observed'):
+      if k in ('accepted', 'refused', 'reinjected', 'stop_raised', 'pauses_from_inside_write', 'closes_by_carbon_observed', 'stats_ticks', 'quality_resets_observed', 'stop_completions_observed', 'closes_taking_effect_later'):
         res.count(k, n)
     res.count('sequences_executed')
     res.count('events_executed', len(s.log))
